@@ -15,8 +15,10 @@ CONSTANTS Conn
 AllDevs == {"C13.reader_transaction_snapshot"}
 
 OwnVals(c) == IF c = "c1" THEN {1, 2} ELSE {3, 4}
-Idle == [tx |-> FALSE, add |-> {}, del |-> {}, snapon |-> FALSE, snap |-> {}]
-InitSt == [committed |-> {}, s |-> [c \in Conn |-> Idle]]
+\* cmt: a table comment written inside the transaction ("-": none) - Snowflake-side metadata is transactional like rows
+Idle == [tx |-> FALSE, add |-> {}, del |-> {}, snapon |-> FALSE, snap |-> {}, cmt |-> "-", scmt |-> ""]
+InitSt == [committed |-> {}, ccmt |-> "", s |-> [c \in Conn |-> Idle]]
+CmtSeen(st, c) == IF st.s[c].cmt # "-" THEN st.s[c].cmt ELSE st.ccmt
 
 Visible(st, c) == (st.committed \ st.s[c].del) \cup st.s[c].add
 \* as built a transaction reads from the snapshot taken by its first statement
@@ -29,7 +31,8 @@ VisibleSnap(st, c) == IF st.s[c].tx /\ st.s[c].snapon THEN (st.s[c].snap \ st.s[
 Obs(res, n, seen) == [res |-> res, n |-> n, seen |-> seen]
 
 \* every statement a transaction executes pins its snapshot if it has none yet (ghost bookkeeping)
-Touch(st, c) == IF st.s[c].tx /\ ~st.s[c].snapon THEN [st EXCEPT !.s[c].snapon = TRUE, !.s[c].snap = st.committed] ELSE st
+Touch(st, c) == IF st.s[c].tx /\ ~st.s[c].snapon THEN [st EXCEPT !.s[c].snapon = TRUE, !.s[c].snap = st.committed, !.s[c].scmt = st.ccmt] ELSE st
+CmtSeenSnap(st, c) == IF st.s[c].cmt # "-" THEN st.s[c].cmt ELSE IF st.s[c].tx /\ st.s[c].snapon THEN st.s[c].scmt ELSE st.ccmt
 
 Steps(st, op, D) ==
   LET x == st.s[op.c] IN
@@ -52,19 +55,26 @@ Steps(st, op, D) ==
          \cup (IF "C13.reader_transaction_snapshot" \in D THEN {R(t, Obs("rows", -1, VisibleSnap(st, op.c)))} ELSE {})
     [] op.k = "fail" ->      \* a statement that fails inside or outside a transaction changes nothing
          {R(Touch(st, op.c), Obs("err", -1, {}))}
+    [] op.k = "cmt" ->       \* COMMENT ON TABLE t IS v  (only connection c1 writes comments: non-conflicting writes)
+         IF x.tx THEN {R([Touch(st, op.c) EXCEPT !.s[op.c].cmt = op.v], Obs("ok", -1, {}))}
+         ELSE {R([st EXCEPT !.ccmt = op.v], Obs("ok", -1, {}))}
+    [] op.k = "readcmt" ->   \* the comment as information_schema.tables shows it to this connection: its own pending one, else the committed one
+         {R(Touch(st, op.c), Obs("cmt:" \o CmtSeen(st, op.c), -1, {}))}
+         \cup (IF "C13.reader_transaction_snapshot" \in D THEN {R(Touch(st, op.c), Obs("cmt:" \o CmtSeenSnap(st, op.c), -1, {}))} ELSE {})
     [] op.k = "noise" ->     \* something that is neither DML nor a transaction statement: no effect on any transaction
          \*  withblock: "with conn: pass" (entering / leaving the connection's context manager);  cursorctx: a cursor used as a
          \*  context manager for SELECT 1;  setvar: SET of a session variable;  usesame: USE SCHEMA <the current schema>
          {R(st, Obs("ok", -1, {})), R(Touch(st, op.c), Obs("ok", -1, {}))}
     [] op.k \in {"commit", "rollback"} ->
          LET com == IF op.k = "commit" THEN (st.committed \ x.del) \cup x.add ELSE st.committed
-             s2 == [st EXCEPT !.committed = com, !.s[op.c] = Idle] IN
+             cc == IF op.k = "commit" /\ x.cmt # "-" THEN x.cmt ELSE st.ccmt
+             s2 == [st EXCEPT !.committed = com, !.ccmt = cc, !.s[op.c] = Idle] IN
          IF op.api = "conn" THEN {R(IF x.tx THEN s2 ELSE st, Obs("api", -1, {}))}
          ELSE IF x.tx THEN {R(s2, Obs("ok", -1, {})), R(s2, Obs("none", -1, {}))}
          ELSE {R(st, Obs("ok", -1, {}))}       \* outside a transaction: success status row, no effect
 
 \* ---- vocabulary ----
-CONSTANTS CursUsed, ThUsed, NoiseUsed
+CONSTANTS CursUsed, ThUsed, NoiseUsed, CmtUsed
 \* th: the thread that makes the call - the one that opened the connection ("main") or another one ("other"), strictly one after
 \* the other; a transaction belongs to its connection, not to a thread
 WithTh(S) == UNION {{[f \in DOMAIN o \cup {"th"} |-> IF f = "th" THEN t ELSE o[f]] : t \in ThUsed} : o \in S}
@@ -77,6 +87,7 @@ Ops(st) == WithTh(
     \cup [k : {"ins"}, c : {c}, u : CursUsed, v : OwnVals(c) \ Visible(st, c), how : {"insert", "merge"}]
     \cup [k : {"del"}, c : {c}, u : CursUsed, v : OwnVals(c) \cap Visible(st, c)]
     \cup [k : {"noise"}, c : {c}, u : CursUsed, w : NoiseUsed]
+    \cup (IF CmtUsed THEN [k : {"readcmt"}, c : {c}, u : CursUsed] \cup (IF c = "c1" THEN [k : {"cmt"}, c : {c}, u : CursUsed, v : {"k1", "k2"}] ELSE {}) ELSE {})
     : c \in Conn})
 IsErr(r) == r.obs.res = "err"
 
@@ -94,6 +105,9 @@ StepOk(st, op, r) ==
   /\ \A c \in Conn \ {op.c} : r.post.s[c] = st.s[c]
   \* NoOpCommit: COMMIT / ROLLBACK outside a transaction succeed with the status row and change nothing
   /\ (op.k \in {"commit", "rollback"} /\ ~x.tx /\ op.api = "sql" => r.obs.res = "ok" /\ r.post = st)
+  /\ (op.k = "readcmt" => r.obs.res = "cmt:" \o CmtSeen(st, op.c) /\ r.post.ccmt = st.ccmt)
+  /\ (op.k = "cmt" /\ x.tx => r.post.ccmt = st.ccmt)                             \* a comment written in a transaction is not published before COMMIT
+  /\ (op.k = "rollback" => r.post.ccmt = st.ccmt)
   /\ (op.k = "noise" => r.obs.res = "ok" /\ r.post.committed = st.committed /\ r.post.s[op.c].tx = x.tx
                          /\ r.post.s[op.c].add = x.add /\ r.post.s[op.c].del = x.del)
   /\ (op.k = "fail" => r.post.committed = st.committed /\ r.post.s[op.c].add = x.add /\ r.post.s[op.c].tx = x.tx)
